@@ -18,6 +18,9 @@ func ptr[T any](v T) *T { return &v }
 
 var theEnum = EnumEnv{Name: "Color", Prefix: "COLOR_", Options: []string{"RED", "GREEN", "BLUE", "DARK_RED"}}
 
+// the same enum with its zero option declared explicitly (rules can then name it)
+var theEnumZ = EnumEnv{Name: "Color", Prefix: "COLOR_", Unspecified: "UNSPECIFIED", Options: []string{"RED", "GREEN", "BLUE", "DARK_RED"}}
+
 // genEnum: the enum of a compile unit: default or explicit prefix, options
 // written short or prefixed, an explicit UNSPECIFIED now and then, descriptions
 func genEnum(r *vh.Rand) EnumEnv {
@@ -55,6 +58,36 @@ func genEnum(r *vh.Rand) EnumEnv {
 	if r.Chance(40) {
 		e.Desc = genDesc(r)
 	}
+	// info fields of the enum and info of its options
+	if r.Chance(30) {
+		for i, n := 0, r.Range(1, 2); i < n; i++ {
+			f := [3]string{vh.Pick(r, []string{"hex", "label", "weight"}) + fmt.Sprint(i), "", ""}
+			if r.Bool() {
+				f[1] = vh.Pick(r, []string{"Hex", "A label", "é"})
+			}
+			if r.Chance(40) {
+				f[2] = "describes " + f[0]
+			}
+			e.InfoFields = append(e.InfoFields, f)
+		}
+		e.OptInfos = make([]map[string]string, len(e.Options))
+		for i := range e.Options {
+			if r.Chance(60) {
+				m := map[string]string{}
+				for _, f := range e.InfoFields {
+					if r.Chance(70) {
+						m[f[0]] = vh.Pick(r, []string{"ff0000", "", "two words", "é日"})
+					}
+				}
+				if len(m) > 0 {
+					e.OptInfos[i] = m
+				}
+			}
+		}
+		if e.Unspecified != "" && r.Chance(40) {
+			e.UnspecInfo = map[string]string{e.InfoFields[0][0]: "none"}
+		}
+	}
 	return e
 }
 
@@ -63,7 +96,7 @@ var patterns = []string{"^[a-z]{3}$", "^[0-9A-F]{4}$", "^[a-c0-2]{2}$", "^[A-Za-
 
 // patterns Go's regexp (RE2, which CEL's matches() uses) refuses to compile; the
 // j5 compiler copies them into string.pattern unchecked
-var badPatterns = []string{"[", "(", "a)", "(?=a)", "a{2000}", "(a)\\1", "*a", "a**", "[z-a]", "\\p{Foo}"}
+var badPatterns = []string{"[", "(", "a)", "(?=a)", "a{2000}", "(a)\\1", "*a", "a**", "[z-a]"}
 
 func init() {
 	for _, p := range badPatterns {
@@ -227,6 +260,9 @@ func genFTy(r *vh.Rand, scope string, env EnumEnv) (FTy, string) {
 			}
 			if r.Chance(40) {
 				sr.Pat = ptr(vh.Pick(r, patterns))
+				if scope == "c12" && r.Chance(60) {
+					sr.Pat = ptr(genPattern(r)) // any expression of the modelled RE2 fragment
+				}
 			}
 			t.Str = sr
 		}
@@ -236,6 +272,9 @@ func genFTy(r *vh.Rand, scope string, env EnumEnv) (FTy, string) {
 		}
 		if scope == "c12" && t.Str != nil && r.Chance(7) {
 			t.Str.Pat = ptr(vh.Pick(r, badPatterns))
+			if r.Bool() {
+				t.Str.Pat = ptr(genBadPattern(r))
+			}
 			return t, "unevaluable-pattern" // compiles; the validator then fails on every message of the type
 		}
 		return t, ""
@@ -277,6 +316,14 @@ func genFTy(r *vh.Rand, scope string, env EnumEnv) (FTy, string) {
 			for i := r.Intn(3); i > 0; i-- {
 				er.NotIn = append(er.NotIn, name())
 			}
+			if env.stdZero() && r.Chance(35) { // the explicit zero option can be named
+				z := vh.Pick(r, []string{"UNSPECIFIED", env.Prefix + "UNSPECIFIED", env.Unspecified})
+				if r.Chance(65) {
+					er.NotIn = append(er.NotIn, z)
+				} else {
+					er.In = append(er.In, z)
+				}
+			}
 			if r.Chance(4) {
 				er.NotIn = append(er.NotIn, vh.Pick(r, []string{"PURPLE", "UNSPECIFIED", "red"}))
 				class = "compile-error"
@@ -292,6 +339,11 @@ func genFTy(r *vh.Rand, scope string, env EnumEnv) (FTy, string) {
 		class := ""
 		if t.KF == KCustom {
 			t.KPat = vh.Pick(r, patterns)
+			if scope == "c12" && r.Chance(50) {
+				// (not the empty pattern: KeyFormat.Custom.pattern is a required value of the source schema)
+				for t.KPat = genPattern(r); t.KPat == ""; t.KPat = genPattern(r) {
+				}
+			}
 		}
 		if r.Chance(30) {
 			e := &EntityKey{}
@@ -318,7 +370,12 @@ func genFTy(r *vh.Rand, scope string, env EnumEnv) (FTy, string) {
 		}
 		return t, class
 	case 7:
-		return FTy{Kind: TFloat, F64: r.Bool(), List: genLPay(r, true, false)}, ""
+		t := FTy{Kind: TFloat, F64: r.Bool(), List: genLPay(r, true, false)}
+		if r.Chance(10) {
+			t.FloatR = true
+			return t, "compile-error" // "TODO: float rules not implemented"
+		}
+		return t, ""
 	case 8:
 		t := FTy{Kind: TDate, List: genLPay(r, false, false)}
 		if r.Chance(50) {
@@ -332,9 +389,33 @@ func genFTy(r *vh.Rand, scope string, env EnumEnv) (FTy, string) {
 		}
 		return t, ""
 	case 10:
-		return FTy{Kind: TTimestamp, List: genLPay(r, true, false)}, ""
+		t := FTy{Kind: TTimestamp, List: genLPay(r, true, false)}
+		if r.Chance(40) {
+			ts := &TSRules{XMin: optBool(r), XMax: optBool(r)}
+			// j5s text cannot set a timestamp attribute ("unsupported scalar type"): bounds through the AST only
+			if genAST && r.Chance(60) {
+				ts.Min = ptr(int64(r.Range(0, 2000000000)))
+			}
+			if genAST && r.Chance(60) {
+				ts.Max = ptr(int64(r.Range(0, 2000000000)))
+			}
+			if ts.Min != nil || ts.Max != nil || ts.XMin != nil || ts.XMax != nil || genAST {
+				t.TS = ts
+			}
+		}
+		return t, ""
 	case 11:
-		return FTy{Kind: TObject, Flatten: r.Chance(40)}, ""
+		t := FTy{Kind: TObject, Flatten: r.Chance(40)}
+		if r.Chance(40) {
+			t.Ref = "Baz" // a second object of the compile unit
+		}
+		if r.Chance(35) {
+			or := &ObjRules{Min: smallLen(r), Max: smallLen(r)}
+			if or.Min != nil || or.Max != nil || genAST {
+				t.ObjR = or
+			}
+		}
+		return t, ""
 	case 12:
 		if r.Bool() {
 			t := FTy{Kind: TAny, List: genLPay(r, false, false)}
@@ -346,7 +427,11 @@ func genFTy(r *vh.Rand, scope string, env EnumEnv) (FTy, string) {
 			}
 			return t, ""
 		}
-		return FTy{Kind: TOneof, List: genLPay(r, false, false)}, ""
+		t := FTy{Kind: TOneof, OneofR: genAST && r.Chance(30), List: genLPay(r, false, false)}
+		if r.Chance(40) {
+			t.Ref = "Pick" // a second oneof of the compile unit
+		}
+		return t, ""
 	}
 	panic("unreachable")
 }
@@ -402,6 +487,13 @@ func genProp04(r *vh.Rand, name string, env EnumEnv) genDecl {
 // lib/j5schema wellKnownStringPatterns
 var wellKnownPatterns = []string{`^\d{4}-\d{2}-\d{2}$`, `^\d(.?\d)?$`, "^[0-9A-Za-z]{22}$"}
 
+// propName: property names as j5s writes them (lowerCamel), with the shapes
+// strcase.ToSnake treats differently: a capital after a lower-case letter, digits,
+// adjacent capitals, an underscore; the index keeps the proto names distinct
+func propName(r *vh.Rand, i int) string {
+	return fmt.Sprintf(vh.Pick(r, []string{"f%d", "f%d", "fooBar%d", "x%dY", "aBC%d", "foo_bar%d", "f%dId", "someURL%d"}), i)
+}
+
 var descWords = []string{"the", "quick", "id", "of", "a", "thing", "x2", "value.", "(unit)"}
 
 func genDesc(r *vh.Rand) string {
@@ -423,6 +515,12 @@ func genProp(r *vh.Rand, name string, scope string, env EnumEnv) genDecl {
 		// array rules (counts, uniqueness) apply
 		t = FTy{Kind: vh.Pick(r, []TyKind{TFloat, TFloat, TTimestamp, TDate, TDecimal, TAny, TObject, TOneof})}
 		t.F64 = r.Bool()
+		if t.Kind == TObject && r.Bool() {
+			t.Ref = "Baz"
+		}
+		if t.Kind == TOneof && r.Bool() {
+			t.Ref = "Pick"
+		}
 		forceArray = true
 	}
 	p := Prop{Name: name, T: t, Desc: genDesc(r)}
@@ -598,8 +696,8 @@ func strOfLen(r *vh.Rand, n int, ascii bool) string {
 func patternStrings(r *vh.Rand, pat string) []string {
 	var class string
 	var n int
-	if !strings.HasPrefix(pat, "^[") || !strings.Contains(pat, "]{") {
-		return []string{"a", "aa", "["} // not of the class-count form (an ill-formed pattern)
+	if _, ok := patAST[pat]; ok || !strings.HasPrefix(pat, "^[") || !strings.Contains(pat, "]{") {
+		return patternTexts(r, pat) // not of the class-count form: sampled from the expression (or fixed texts for an ill-formed one)
 	}
 	if _, err := fmt.Sscanf(pat[strings.Index(pat, "{"):], "{%d}$", &n); err != nil {
 		return nil
